@@ -376,6 +376,20 @@ def dynamic(ck, t, done, quick):
     mres = [rt1(c, header=h) for c, h in multi]
     for (c, h), d in zip(multi, mres):
         judge(ck, ["<first header: %s>" % os.path.basename(h)] + c, d, "multi-header")
+    # options that may be given several times and whose ORDER is data (raw lines at the top of a module, extern-block attributes, clang
+    # arguments): three values in a non-sorted order, same module / several modules
+    US = "\x1f"
+    ordered = [["raw_line=// zz top", "raw_line=// aa top", "raw_line=// mm top"],
+               ["enable_cxx_namespaces", "module_raw_line=root" + US + "pub type Zz = u8;", "module_raw_line=root" + US + "pub type Aa = u16;", "module_raw_line=root" + US + "pub type Mm = u32;"],
+               ["enable_cxx_namespaces", "module_raw_line=root" + US + "pub const B_FIRST: u8 = 1;", "raw_line=// between", "module_raw_line=root" + US + "pub const A_SECOND: u8 = B_FIRST + 1;"],
+               ["extern_fn_block_attrs=#[allow(unused)]", "extern_fn_block_attrs=#[allow(dead_code)]", "extern_fn_block_attrs=#[allow(clippy::all)]"],
+               ["clang_arg=-DZ_LAST=1", "clang_arg=-DA_FIRST=2", "clang_arg=-UZ_LAST", "clang_arg=-DZ_LAST=3"],
+               ["allowlist_type=with_.*", "allowlist_type=an_enum", "allowlist_function=plain_fn", "blocklist_type=a_union"],
+               ["no_copy=with_field", "no_debug=with_field", "no_copy=an_.*", "no_default=with_field"]]
+    for c in ordered:
+        known_methods = {m for m, k in done}
+        if all(x.split("=")[0] in known_methods for x in c):
+            cases.append((c, "repeated-ordered"))
     # the leading-dash hazard, separately
     strm = [m for m, k in done if k == "str" and m not in skip]
     for m in r.sample(strm, min(len(strm), 6 if quick else 40)):
